@@ -246,6 +246,11 @@ def check_config(ctx, F, tag, text, lists):
         b = F.body(fn)
         aggs = [bi for bi, si, st in b.stmts() if st["s"] == "assign" and st["rv"]["r"] == "agg" and st["rv"].get("def") == "int_vector::IntVector"]
         ok = bool(aggs)
+        if not aggs:
+            from guards import VALIDATING_CTORS
+            wparam0 = {"int_vector::IntVector::new": 0, "int_vector::IntVector::with_len": 1, "int_vector::IntVector::with_capacity": 1}[fn]
+            ok = any(callee_name(t) in VALIDATING_CTORS and callee_name(t) != fn and core(b.term_of_operand(t["args"][VALIDATING_CTORS[callee_name(t)]]))[:2] == ("param", wparam0)
+                     for _, t in b.calls())          # delegated to another validating constructor with the same width
         for bi in aggs:
             fs = facts_at(b, bi)
             wparam = {"int_vector::IntVector::new": 0, "int_vector::IntVector::with_len": 1, "int_vector::IntVector::with_capacity": 1}[fn]
